@@ -412,6 +412,7 @@ def run(ctx):
         ok = a0 == a1 and any('invert' in a or 'inv' in a for a in a0)
     ctx.ob('C19.c', f'{mg.qual}._qasm_:invert-mask-symmetric', ok, '' if ok else 'the x flips for inverted measurement bits are not emitted under the same test before and after the measure', mg.mod.rel, mq.lineno)
     _entry_point_rules(ctx, repo)
+    _phased_xz_qasm(ctx, repo)
 
 
 def _entry_point_rules(ctx, repo):
@@ -455,3 +456,103 @@ def _entry_point_rules(ctx, repo):
         if abs(ov - 1) > 1e-9:
             bad = bad or f'QasmUGate(theta={t}, phi={p}, lmda={l}) is written as `{text.strip()}`, which is a different rotation (overlap {ov:.4f})'
     ctx.ob('C19.a', f'{ug.qual}._qasm_', bad is None, bad or '', ug.mod.rel, fn.lineno)
+
+
+class _PXZ:
+    """Model of a PhasedXZGate: Z^z Z^a X^x Z^-a."""
+    def __init__(self, x, z, a):
+        self._x_exponent = self.x_exponent = x
+        self._z_exponent = self.z_exponent = z
+        self._axis_phase_exponent = self.axis_phase_exponent = a
+
+    def matrix(self):
+        def zp(t):
+            return np.diag([1, np.exp(1j * np.pi * t)])
+
+        def xp(t):
+            return (np.eye(2) + X) / 2 + np.exp(1j * np.pi * t) * (np.eye(2) - X) / 2
+        return zp(self._z_exponent) @ zp(self._axis_phase_exponent) @ xp(self._x_exponent) @ zp(-self._axis_phase_exponent)
+
+
+def pxz_interp(repo, fn, gate, capture):
+    """Interpret a PhasedXZGate method on a model gate; QasmUGate(...) calls are captured, other self-methods are interpreted recursively."""
+    ci = repo.cls('cirq.ops.phased_x_z_gate.PhasedXZGate')
+
+    def attr_hook(node, it):
+        try:
+            v = it.ev(node.value)
+        except fdx.Unsupported:
+            return NotImplemented
+        if isinstance(v, _PXZ) and node.attr in vars(v):
+            return getattr(v, node.attr)
+        return NotImplemented
+
+    def call_hook(call, it):
+        s = ast.unparse(call.func)
+        last = s.split('.')[-1]
+        if last == 'QasmUGate':
+            kw = {k.arg: it.ev(k.value) for k in call.keywords}
+            pos = [it.ev(a) for a in call.args]
+            for name, v in zip(('theta', 'phi', 'lmda'), pos):
+                kw[name] = v
+            capture.append(kw)
+            return ('U', kw)
+        if s in ('protocols.qasm', 'cirq.qasm', 'qasm'):
+            return it.ev(call.args[0])
+        if last == 'PhasedXZGate' or s == 'cls':
+            kw = {k.arg: it.ev(k.value) for k in call.keywords}
+            pos = [it.ev(a) for a in call.args]
+            for name, v in zip(('x_exponent', 'z_exponent', 'axis_phase_exponent'), pos):
+                kw[name] = v
+            return _PXZ(kw['x_exponent'], kw['z_exponent'], kw['axis_phase_exponent'])
+        if s == 'isinstance':
+            v = it.ev(call.args[0])
+            t = ast.unparse(call.args[1])
+            if 'sympy' in t:
+                return False
+            return NotImplemented
+        if isinstance(call.func, ast.Attribute):
+            try:
+                recv = it.ev(call.func.value)
+            except fdx.Unsupported:
+                return NotImplemented
+            if isinstance(recv, _PXZ):
+                found = repo.find_method(ci, call.func.attr)
+                if found is None:
+                    raise fdx.Unsupported(f'unknown method {call.func.attr}')
+                return pxz_interp(repo, found[1], recv, capture)
+        return NotImplemented
+    params = [a.arg for a in fn.args.args]
+    env = {params[0]: gate}
+    for p in params[1:]:
+        env[p] = ('q',) if p == 'qubits' else None
+    it = fdx.NumInterp(env, call_hook=call_hook, attr_hook=attr_hook)
+    it.builtins.update({'float': float, 'abs': abs, 'int': int, 'round': round})
+    return it.call(fn)
+
+
+PXZ_PROBES = [(x, z, a) for x in (0.3, 1, -1, 0, 1.5, -0.4, 2, 3) for z in (0, 0.5, -0.25, 1) for a in (0, 0.25, -0.7)]
+
+
+def _phased_xz_qasm(ctx, repo):
+    ctx.decided.append('C19.f PhasedXZGate._qasm_ (the form every merged one-qubit gate is exported in): the u3 angles it hands to QasmUGate multiply to Z^z Z^a X^x Z^-a up to global phase '
+                       'for a grid of (x, z, a) including x = +-1, where canonicalisation folds z into a')
+    ctx.rule('C19.f', 'PhasedXZGate export: interpreting _qasm_ (and any method of the class it calls) on model gates, u3(pi*theta, pi*phi, pi*lmda) of the captured QasmUGate arguments '
+             'equals the gate matrix up to global phase for each of the probe triples', floor=60, style='FDX')
+    ci = repo.cls('cirq.ops.phased_x_z_gate.PhasedXZGate')
+    fn = repo.method(ci.qual, '_qasm_')
+    for x, z, a in PXZ_PROBES:
+        g = _PXZ(x, z, a)
+        cap = []
+        try:
+            pxz_interp(repo, fn, g, cap)
+        except (fdx.Unsupported, fdx.Raised) as ex:
+            raise AnalysisError(f'cannot interpret PhasedXZGate._qasm_: {ex}')
+        if len(cap) != 1:
+            raise AnalysisError('PhasedXZGate._qasm_ no longer builds exactly one QasmUGate')
+        th, ph, lm = (cap[0][k] * np.pi for k in ('theta', 'phi', 'lmda'))
+        u3 = np.array([[np.cos(th / 2), -np.exp(1j * lm) * np.sin(th / 2)], [np.exp(1j * ph) * np.sin(th / 2), np.exp(1j * (ph + lm)) * np.cos(th / 2)]])
+        ov = abs(np.trace(g.matrix().conj().T @ u3)) / 2
+        ok = abs(ov - 1) < 1e-9
+        ctx.ob('C19.f', f'{ci.qual}._qasm_:x={x}:z={z}:a={a}', ok, '' if ok else
+               f'PhasedXZGate(x={x}, z={z}, a={a}) is exported as u3(pi*{cap[0]["theta"]:g}, pi*{cap[0]["phi"]:g}, pi*{cap[0]["lmda"]:g}), a different rotation (overlap {ov:.4f})', ci.mod.rel, fn.lineno)
